@@ -1,5 +1,6 @@
 """C14 — JSON serialisation round-trips grammars and weights."""
 import itertools, json, math
+from fractions import Fraction
 from mc.core import Res
 from mc import ir as IR, canon, patterns as P
 
@@ -31,6 +32,8 @@ def gen_cases(tier, seed):
     for i, g in enumerate(grammar_irs('quick')):
         if i % 7 == 0 or tier == 'thorough':
             yield ('B', g)
+    for name in ('dup-production', 'lin-two-rules', 'dead-rule-internal'):
+        yield ('B', template_ir(name))
     for pshape in bounds(tier)['spec_phys_shapes']:
         for expand in (None, (2,)):
             for nd in (1, 2):
@@ -40,6 +43,13 @@ def gen_cases(tier, seed):
             yield ('D', sh)
     for wshape in E_SHAPES:
         yield ('E', wshape)
+
+
+def template_ir(name):
+    ir = dict(IR.recursive_templates()[name])
+    ir['nl'] = {k: 2 for k in ir['nl']}
+    ir['w'] = IR.generic_weights(ir, values=[Fraction(1, 4), Fraction(1, 8), Fraction(1, 16), Fraction(3, 16), Fraction(1, 32)])
+    return ir
 
 
 def describe(case):
@@ -193,6 +203,25 @@ def judge_roundtrip(g, all_explicit, r, case, key, nontrivial=True):
         j2 = fggs.fgg_to_json(g2)
         if json.dumps(j2, sort_keys=True) != json.dumps(j, sort_keys=True):
             msgs.append('second round trip is not verbatim')
+    if not msgs:
+        # history: serialise, change a weight tensor in place (as an optimiser step does), serialise again
+        for k in g.factors:
+            ph = g.factors[k].weights.physical
+            if ph.numel() == 0 or not ph.is_contiguous() or ph.dtype == torch.bool:
+                continue
+            try:
+                with torch.no_grad():
+                    ph.mul_(2.)
+                w3 = fggs.json_to_fgg(json.loads(json.dumps(fggs.fgg_to_json(g)))).factors[k].weights.to_dense()
+                now = g.factors[k].weights.to_dense()
+                if w3.shape != now.shape or not torch.equal(w3, now):
+                    msgs.append('after an in-place update of %s the JSON still carries %r, the grammar has %r' % (k, w3.tolist(), now.tolist()))
+                with torch.no_grad():
+                    ph.div_(2.)
+            except Exception as e:
+                r.exc(e, 'roundtrip-after-update', case, key)
+                return
+            break
     if msgs:
         r.bad('roundtrip-differs', 'formats.fgg_to_json/json_to_fgg', 'roundtrip', '; '.join(msgs)[:700], case, key)
     else:
